@@ -30,7 +30,7 @@ static void setup(Runner &r, const Tier &t) {
         int fi = int(g_fonts.size()) - 1;
         for (int ti = 0; ti < int(g_texts[fi].size()); ++ti) for (int dir = 0; dir < 8; ++dir) for (int wf = 0; wf < 2; ++wf) g_cases.push_back({ fi, ti, dir, wf });
     }
-    r.ncases = g_cases.size(); r.case_alarm_s = 300;
+    r.ncases = g_cases.size(); r.case_alarm_s = unsigned(r.deadline_s) + 600;
     r.shard_init = [](int) { g_fc = new FaceCache; };
     r.describe = [](uint64_t i) { const JCase &c = g_cases[i]; JObj o; o.kv("api", "gr_slot_linebreak_before + gr_seg_justify").kv("font", g_fonts[c.font]).kv("text_utf8_hex", hex(g_texts[c.font][c.text].data(), g_texts[c.font][c.text].size()))
         .kv("dir", c.dir).kv("with_font", c.wf).kv("histories", "every subset of cluster-boundary breaks x every line x 6 widths x 4 flags x 4 sub-ranges, applied in sequence"); return o; };
@@ -49,6 +49,7 @@ static void setup(Runner &r, const Tier &t) {
         if (bnd.size() > (g_thor ? 11u : 9u)) bnd.resize(g_thor ? 11 : 9);
         uint64_t calls = 0; bool failed = false;
         for (uint32_t mask = 0; mask < (1u << bnd.size()) && !failed; ++mask) {
+            if (deadline_hit(ctl)) break;
             size_t bal0 = allocated_bytes(); bool made = true;
             {   // everything the harness allocates for this history lives inside this block
             gr_segment *seg = gr_make_seg(font, face, 0, nullptr, gr_utf8, txt.c_str(), nch, c.dir); if (!seg) { made = false; }
